@@ -16,6 +16,11 @@ RULE = ("cases = committed corpus + seeded generator of harness/src/bin/c12.rs. 
         "first / last / anywhere, latencies up to 60 s, forward capacities 10-1000; dmerge - merge histories with payloads from {1,1,1,2} or {0,1,u64::MAX} (equal across and "
         "within the inputs), 40-80 items on one side against 0 / 1 on the other, both sides silent, one sender dropped at a drawn position of the history (or after it), the "
         "other dropped later, sends after the end. "
+        "Set-up shape families (configuration audit; separately seeded, appended last; 36 quick / N/12 thorough): cfgduo (2/3) - TWO reconnecting pipelines alive at once on one "
+        "paused-clock runtime, each with its own script (1-14 connections, grown in a drawn interleaving: `bconn`) and its own policy (`bpolicy`), assembled with EQUAL StreamKey and "
+        "origin (60 %: two subscription batches of one exchange and kind, the key init_market_stream builds) or different ones, merged by the real merge() and consumed by one "
+        "loop - the assembly of ExecutionManager::init and the multi-exchange builders; the second pipeline's first init may fail or never return; every notice is checked to carry "
+        "the origin its pipeline was given; cfghfwd (1/3) - events -> with_error_handler -> forward_to with receiver capacity 0-7 or unbounded (SystemBuilder / every example). "
         "A case is distinct by the SHA-1 of its op lines and non-trivial when the implementation's observation blocks differ at least once")
 ASSUMPTIONS = [
     "list-level trace semantics: a run is what a consumer that keeps polling observes while the paused clock auto-advances; poll/wake scheduling is not modelled",
@@ -28,6 +33,14 @@ ASSUMPTIONS = [
     "a policy with initial > max waits `initial` after the first failure and is capped only from the second (stated as is in backoff_sequence / backoff_closed_form)",
     "the first init failing means init_reconnecting_stream returns Err: no stream exists (init_failure_delivers_nothing); the property text's 're-initialisation' is read as attempts after the first success",
     "init_market_stream itself (consumer.rs:44-80) is run, as it is, by sub-check C12I over a scripted harness-local connector (two exchange ids, scripted MarketStream::init); the C12 harness proper composes the same three combinators in the same order over a scripted init closure",
+    "mode duo (two live pipelines merged by merge()): neither input of the merge ever ends (a side whose FIRST init fails yields no stream and is replaced by a silent one), so "
+    "the property's merge clause gives each side's complete trace in order; the expected observation is each pipeline's own run (keys ev / bev) with the stamps it has alone - "
+    "the relative order of the two sides' events at equal virtual instants is not compared; StreamKey and origin are labels that do not occur in the model (the harness checks "
+    "that a notice carries the origin given to its pipeline)",
+    "mode hfwd: the expected trace is the handler trace cut after `cap` delivered items (handled errors are not sent and do not count); composed in the driver from the model's "
+    "withErrorHandler / forwardTo and, on the spec side, specHandler + cutAfter - no theorem of Props/C12.lean is about this composition as such",
+    "pipelines WITHOUT with_termination_on_error (ExecutionManager::init) or without with_reconnect_backoff are not run: both stages are generic over the inner stream and are "
+    "covered through the full pipeline; multi-thread runtimes and forward_to running as a spawned task are not run (start_paused needs the current-thread runtime)",
     "merge: 'every item up to the point either input ends' is read at the stream level: the input whose end ends the merged stream is delivered completely; items of the other input that were queued but not yet polled when the end is observed are dropped by design (merge.rs doc comment: terminate when either stream terminates)",
 ]
 SOURCE_FILES = ["barter-data/src/streams/reconnect/stream.rs", "barter-data/src/streams/reconnect/mod.rs",
@@ -35,6 +48,7 @@ SOURCE_FILES = ["barter-data/src/streams/reconnect/stream.rs", "barter-data/src/
                 "barter-integration/src/channel.rs"]
 
 _CLAUSE = {"ev": "trace(items_once_in_order/one_notice/errors_pass/backoff)", "evn": "trace_length(nothing_beyond_the_prescribed_trace)", "fin": "never_ends",
+           "bev": "trace(items_once_in_order/one_notice/errors_pass/backoff)", "bevn": "trace_length(nothing_beyond_the_prescribed_trace)", "bfin": "never_ends",
            "out": "merge_order", "gotL": "merge_order", "gotR": "merge_order", "dfin": "merge_end", "closed": "merge_closed"}
 
 
@@ -49,12 +63,14 @@ def signature(ops, k, key, impl_line, spec_line):
     if op != "conn":
         mode = "merge"
     detail = ""
-    if key == "ev":
+    if key in ("bev", "bevn", "bfin"):
+        detail = " second-pipeline"
+    if key in ("ev", "bev"):
         it, st = impl_line.split(), spec_line.split()
         if len(it) > 1 and len(st) > 1 and it[1] == st[1] and it[:-1] == st[:-1]:
-            detail = " time"
+            detail += " time"
         elif len(it) > 1:
-            detail = " " + it[1]
+            detail += " " + it[1]
     return f"clause={_CLAUSE.get(key, key)} mode={mode}{detail}"
 
 
